@@ -25,10 +25,16 @@ def powiLoop : Nat → Nat → Flt → Flt → Flt
     let elem' := if n % 2 = 1 then elem.mul val else elem
     powiLoop fuel (n / 2) elem' (val.mul val)
 
-/-- `powi`, functions.rs:9-27 (n is a u64: 64 iterations suffice) -/
+/-- `powi`, functions.rs (n is a u64: 64 iterations suffice). The intermediate products round
+    to nearest in every mode; only the final cast uses the format's own mode. -/
+def powiInnerRm : RM → RM
+  | .nta => .nta
+  | _ => .nte
+
 def Flt.powi (x : Flt) (n : Nat) : Flt :=
-  let sem := x.sem.increasePrecision 2
-  (powiLoop 64 n (Flt.one sem false) (x.cast sem)).cast x.sem
+  let orig := x.sem
+  let sem := (orig.increasePrecision 2).withRm (powiInnerRm orig.rm)
+  (powiLoop 64 n (Flt.one sem false) (x.cast sem)).castWithRm orig orig.rm
 
 def Flt.sqr (x : Flt) : Flt := x.powi 2
 
